@@ -253,6 +253,26 @@ func (x *Exec) where(in ssa.Instruction) string {
 func (x *Exec) emit(fr *Frame, st *State, name, kind string, goal *F, in ssa.Instruction) *Oblig {
 	o := &Oblig{Name: x.key + "#" + fr.prefix + name, Kind: kind, Fn: x.key, Where: x.where(in), PC: st.pc[:len(st.pc):len(st.pc)], Goal: goal, Idx: st.idx[:len(st.idx):len(st.idx)], Keys: st.keys[:len(st.keys):len(st.keys)], Trace: st.trace[:len(st.trace):len(st.trace)]}
 	x.obs = append(x.obs, o)
+	if ex, ok := x.eng.excuses[o.Name]; ok && fr.pre != nil && !strings.HasSuffix(name, "|unexcused") {
+		// an open known finding: the same obligation once more, outside the recorded failing inputs (pre-state predicate `excuse`).
+		// If the base obligation fails and this one holds, only the recorded finding is present.
+		func() {
+			defer func() {
+				if r := recover(); r != nil {
+					x.note(fmt.Sprintf("excuse of known finding %s could not be evaluated: %v", o.Name, r))
+				}
+			}()
+			e, err := parseSpecExpr(ex)
+			if err != nil {
+				panic(err)
+			}
+			s2 := st.clone()
+			env := x.specEnvAt(fr, fr.pre, fr.pre, nil)
+			s2.assume(sNot(env.evalBool(e).S))
+			u := &Oblig{Name: o.Name + "|unexcused", Kind: kind, Fn: x.key, Where: o.Where, PC: s2.pc[:len(s2.pc):len(s2.pc)], Goal: goal, Idx: o.Idx, Keys: o.Keys, Trace: o.Trace}
+			x.obs = append(x.obs, u)
+		}()
+	}
 	return o
 }
 
